@@ -125,7 +125,7 @@ func init() {
 	})
 	register(&Property{
 		ID: "C44",
-		Explanation: "Decides: (header-capacity) every site that adds entries to a pack.Packer is bounded by a header-capacity test: packerManager.SaveBlob keeps a packer open for further blobs only if HeaderFull() is false (else it is forgotten and queued), and every caller of Packer.Merge establishes merged-entry-count <= pack.MaxHeaderEntries before merging (this rule reported the genuine defect in mergePackers, now fixed); (type-separation) saveAndEncrypt, evaluated for t=TreeBlob / DataBlob / other, hands the blob to r.treePM / r.dataPM / panics, and the managers are created for the matching type; (forget-before-queue) a packer is removed from the selectable list before it is queued, is kept open only below the target pack size, mergePackers clears list entries before merging, all under the manager mutex; (pack-before-index, flush-order) every queued pack is uploaded and then indexed before the session ends; (no-orphan-packer) pickPacker returns a packer that is not registered in the manager's list only behind ciphertextLen >= packSize, SaveBlob leaves a packer unqueued only behind packer.Size() < packSize of the packer it picked, and the length handed to pickPacker is len() of exactly the bytes packer.Add stores, so the private packer of an oversized blob is always queued — added after a seeded change that measured the plaintext instead. Not decided: exactly-once containment of each blob under every schedule.",
+		Explanation: "Decides: (header-capacity) every site that adds entries to a pack.Packer is bounded by a header-capacity test: packerManager.SaveBlob keeps a packer open for further blobs only if HeaderFull() is false (else it is forgotten and queued), and every caller of Packer.Merge establishes merged-entry-count <= pack.MaxHeaderEntries before merging (this rule reported the genuine defect in mergePackers, now fixed); (type-separation) saveAndEncrypt, evaluated for t=TreeBlob / DataBlob / other, hands the blob to r.treePM / r.dataPM / panics, and the managers are created for the matching type; (forget-before-queue) a packer is removed from the selectable list before it is queued, is kept open only below the target pack size, mergePackers clears list entries before merging, all under the manager mutex; (pack-before-index, flush-order) every queued pack is uploaded and then indexed before the session ends; (no-orphan-packer) pickPacker returns a packer that is not registered in the manager's list only behind ciphertextLen >= packSize, SaveBlob leaves a packer unqueued only behind packer.Size() < packSize of the packer it picked, and the length handed to pickPacker is len() of exactly the bytes packer.Add stores, so the private packer of an oversized blob is always queued — added after a seeded change that measured the plaintext instead; (async-savers-tracked) the wait of flush for asynchronous blob savers is effective: saveBlobAsync adds to Repository.blobSaver before it starts the saving goroutine, that goroutine signals Done on every exit, and flushBlobSaver waits on the same field — on the pinned tree nothing was ever added to the group, so blobs saved asynchronously after the upload callback had returned reached neither a pack nor the index although their callbacks reported success (genuine defect, demonstrated, fixed). Not decided: exactly-once containment of each blob under every schedule.",
 		Assumptions: commonAssumptions,
 		Technique:   "static analysis: call-site enumeration with capacity-predicate edge cuts + specialised path evaluation (go/ssa)",
 		Run: func(c *eng.Ctx) {
@@ -136,8 +136,13 @@ func init() {
 			ruleUploadErrorsPropagate(c)
 			ruleFlushOrder(c)
 			ruleNoOrphanPacker(c)
+			ruleAsyncSaversTracked(c)
 		},
 		Controls: []Control{
+			{Name: "async-saver-not-registered", File: "internal/repository/repository.go",
+				Old: "	blobSaver.Add(1)\n", New: "", Rule: "async-savers-tracked"},
+			{Name: "async-saver-done-only-on-success", File: "internal/repository/repository.go",
+				Old: "		defer blobSaver.Done()\n		if ctx.Err() != nil {\n			// fail fast if the context is cancelled\n			cb(restic.ID{}, false, 0, ctx.Err())\n			return ctx.Err()\n		}\n		newID, known, size, err := r.saveBlob(ctx, t, buf, id, storeDuplicate)\n", New: "		if ctx.Err() != nil {\n			// fail fast if the context is cancelled\n			cb(restic.ID{}, false, 0, ctx.Err())\n			return ctx.Err()\n		}\n		newID, known, size, err := r.saveBlob(ctx, t, buf, id, storeDuplicate)\n		blobSaver.Done()\n", Rule: "async-savers-tracked"},
 			{Name: "oversize-decided-on-plaintext-length", File: "internal/repository/packer_manager.go",
 				Old: "	packer, err := r.pickPacker(len(ciphertext))", New: "	packer, err := r.pickPacker(uncompressedLength)", Rule: "no-orphan-packer"},
 			{Name: "oversize-threshold-halved", File: "internal/repository/packer_manager.go",
